@@ -40,7 +40,7 @@ def plan(tier, seed):
         dict(seeds=all_leaves, operands=all_leaves + list(arrs.values()), small=small, acts=API, lvl=1, dim=36,
              scalars=sc),
         dict(seeds=all_leaves, operands=ops, small=small[:3], acts=API, lvl=2, dim=8, scalars=sc),
-        dict(seeds=all_leaves, operands=ops, small=small, acts=API, lvl=6, dim=12, scalars=sc, simulate=700),
+        dict(seeds=all_leaves, operands=ops, small=small, acts=API, lvl=6, dim=12, scalars=sc, simulate=40),
     ]
 
 
